@@ -1,6 +1,6 @@
 CONFIG = {
     "lean_props": "J5V/Props/C04.lean",
-    "extract": [],
+    "extract": ["rules"],
     "streams": [{
         "name": "compile.schema", "harness": "rulesh", "driver": "drv_rules",
         "env": {"RULESH_STREAM": "schema"},
@@ -9,7 +9,8 @@ CONFIG = {
         "timeout_s": 1500,
         "rule": "corpus (one witness op per open finding + the witnesses of fixed findings) then a seeded generator of j5s roots: "
                 "`object Foo` (5 in 6; optional description, entity annotation with every part, any-membership, sometimes an "
-                "entity-annotated referenced object and a field called `keys`) or `oneof Foo` (1 in 6) with 1-4 fields / options: "
+                "entity-annotated referenced object and a field called `keys`) or `oneof Foo` (1 in 6) with 1-4 fields / options (1 in 12: 11-14, "
+                "where the order of the printed .proto text depends on source-location indices >= 10; enums likewise 1 in 12 with 11-13 described options): "
                 "property names from a pool of canonical lowerCamel names and names that do not survive snake_case -> lowerCamel (acronyms, digits, "
                 "capital runs, single letters), for every kind and cardinality; "
                 "every field type as single field, array (1 in 4) or map (1 in 7, with minPairs/maxPairs/singleForm), rules as in "
@@ -34,6 +35,9 @@ CONFIG = {
         "the harness's declared side calls the real library (third party, not under verification)",
         "protocompile (linking, re-parsing) and protoprint are outside the model: the text path is a Go-side oracle only (composition with C05)",
         "the Go harness internal/verifh/rulesh",
+        "extract/rules.go (go/ast: per writer / reader branch the fields read and every copy with its guards, aliases expanded) and the "
+        "hand-written slot tables of J5V/Rules/SrcFacts.lean; the source-fact obligations are about texts of the source, "
+        "they tie names / guards / casts / slots to the model, not the behaviour of the libraries called",
     ],
     "assumptions": [
         "descriptions are non-empty trimmed lines not starting with '#' (the reader's comment normalisation)",
